@@ -161,6 +161,10 @@ def lp_model(cg: ComputationGraph,
         for l in cg.links:
             # As we support hypergraph, we may have more than 2 ends to a link
             for c1, c2 in combinations(l.nodes, 2):
+                if (c1, a1, c2, a2) in betas:
+                    # Two links may share a couple of computations: one
+                    # variable (and one name in the LP model) per couple.
+                    continue
                 count += 2
                 b = LpVariable('b_{}_{}_{}_{}'.format(c1, a1, c2, a2),
                                cat=LpBinary)
